@@ -95,7 +95,7 @@ fn c03_handle_op_inversion() {
     std::mem::forget(o);
 }
 
-//@h {"id":"C03.K.canary","props":["C03","C01"],"tier":"quick","kind":"canary","timeout":300,"text":"canary: apply claimed to ignore the inverted flag must FAIL"}
+//@h {"id":"C03.K.canary","props":["C03","C01","C13"],"tier":"quick","kind":"canary","timeout":300,"text":"canary: apply claimed to ignore the inverted flag must FAIL"}
 #[kani::proof]
 #[kani::unwind(6)]
 fn c03_canary() {
